@@ -55,6 +55,11 @@ def scenario(draw):
             elif how == "outside":
                 p["reg"] = {"how": "outside"}
                 callers[draw(st.sampled_from(["outside0", "outside1"]))].append((t, draw(st.sampled_from(["adopt", "service"])), pid))
+            elif how == "from" and draw(st.integers(0, 3)) == 0:
+                # adopted by a thread payload from inside an event loop of its own (e.g. a library using asyncio.run)
+                p["reg"] = {"how": "from"}
+                p["how"] = "from-private-loop"
+                callers["threading"].append((t, "adopt-private:" + draw(st.sampled_from(["asyncio", "trio"])), pid))
             elif how == "from":
                 src = draw(st.sampled_from(ALL))
                 if src == "asyncio" and flv == "trio" and direction == "trio->asyncio":
@@ -69,6 +74,18 @@ def scenario(draw):
                 p["caller"] = src
                 callers[src].append((t, "execute", pid))
             payloads.append(p)
+    blockers = draw(st.integers(0, 4))
+    longest = 0
+    mass = draw(st.integers(0, 5)) == 0
+    if mass:
+        # many thread payloads that block at the same time, adopted from inside a coroutine payload
+        src = draw(st.sampled_from(["asyncio", "trio"]))
+        count = draw(st.sampled_from([25, 40]))
+        for i in range(count):
+            payloads.append({"id": 400 + i, "flavour": "threading", "role": "blocker", "kind": "block", "reg": {"how": "from"},
+                             "program": [["mark-begin"], ["block", 300], ["mark-end"]], "end": ["return", "None"]})
+            callers[src].append((5, "adopt", 400 + i))
+        longest = 500
     drivers = []
     for k in ("outside0", "outside1"):
         drivers.append([{"at_ms": t, "op": op, "pid": c} for t, op, c in sorted(callers[k])])
@@ -79,11 +96,12 @@ def scenario(draw):
                 if t > now:
                     prog.append(["sleep", t - now])
                     now = t
-                prog.append([op, c])
+                if op.startswith("adopt-private:"):
+                    prog.append(["adopt-private", c, op.split(":")[1], 150])
+                else:
+                    prog.append([op, c])
             prog.append(["sleep", 600000] if flv != "threading" else ["wait", "never"])
             payloads.append({"id": 200 + ALL.index(flv), "flavour": flv, "role": "caller", "reg": {"how": "pre"}, "program": prog, "end": ["forever"], "cleanup": {}})
-    blockers = draw(st.integers(0, 4))
-    longest = 0
     # CPU burners only perturb the schedule (the GIL is not fair, so they may starve anything); the
     # "does not stall" clause is judged in scenarios whose thread payloads block without burning
     burners = draw(st.booleans())
@@ -174,9 +192,9 @@ def run_case(sc) -> Result:
     nt = False
     for flv in COROUTINE:
         hows = [p.get("how") for p in sc["payloads"] if p["role"] == "worker" and p["flavour"] == flv]
-        res.cls(f"{flv}:adopted:%d" % sum(1 for h in hows if h in ("pre", "outside", "from")), f"{flv}:executed:%d" % sum(1 for h in hows if h == "execute"),
+        res.cls(f"{flv}:adopted:%d" % sum(1 for h in hows if h in ("pre", "outside", "from", "from-private-loop")), f"{flv}:from-private-loop:%d" % sum(1 for h in hows if h == "from-private-loop"), f"{flv}:executed:%d" % sum(1 for h in hows if h == "execute"),
                 f"{flv}:service:%d" % sum(1 for h in hows if h == "pre-service"))
-        if "execute" in hows and any(h in ("pre", "outside", "from", "pre-service") for h in hows):
+        if "execute" in hows and any(h in ("pre", "outside", "from", "pre-service", "from-private-loop") for h in hows):
             nt = True
     res.cls("blockers:%d" % sum(1 for p in sc["payloads"] if p["role"] == "blocker"), "direction:" + sc["direction"])
     nsec = sum(1 for e in obs.get("log", []) if e[3] == "section")
